@@ -6,6 +6,8 @@ HARNESSES = [
     dict(name="alist-dbg", src=["alist.c"], variant="asan-dbg", tiers=["thorough"], args=["--light"],
          deadline={"thorough": 600}),
     dict(name="llist-dbg", src=["llist.c"], variant="asan-dbg", tiers=["thorough"], deadline={"thorough": 300}),
+    # free-running ThreadSanitizer twin: two threads, each with objects of its own (harness/common/twin.c; samples, decides nothing)
+    dict(name="own-objects-tsan", src=["../common/twin.c"], variant="tsan", cflags=["-DTWIN_C09", "-DVSX_FREE_RUNS=6"], deadline={"quick": 60, "thorough": 120}),
 ]
 ASSUMPTIONS = [
     "array list: item sizes 1,3,8,128,129,300; storage dynamic (initial 0,1,2 items) or static (2,3 items between two 64-byte guard "
